@@ -382,6 +382,10 @@ impl<'a> Pr<'a> {
     fn plain(&mut self, text: String) {
         self.line_inner(None, text, false, false, false)
     }
+    /// FOR / WHILE / DO and NEXT / WEND / LOOP lines: they may share a line with their neighbours (`FOR I = 1 TO 2: PRINT I: NEXT`)
+    fn loop_line(&mut self, path: &str, text: String) {
+        self.line_inner(Some(path), text, true, false, true)
+    }
 
     fn simple_text(&mut self, s: &Stmt) -> String {
         match s {
@@ -654,23 +658,23 @@ impl<'a> Pr<'a> {
                     t.push_str(&self.sp());
                     t.push_str(&self.expr(s));
                 }
-                self.header(path, t);
+                self.loop_line(path, t);
                 self.block(path, "b", body);
                 let mut n = self.kw("NEXT");
                 if *next_names {
                     n.push_str(&self.sp());
                     n.push_str(&self.lvalue(var));
                 }
-                self.header(&format!("{}/end", path), n);
+                self.loop_line(&format!("{}/end", path), n);
             }
             Stmt::While { cond, body } => {
                 let a = self.kw("WHILE");
                 let s = self.sp();
                 let c = self.expr(cond);
-                self.header(path, format!("{}{}{}", a, s, c));
+                self.loop_line(path, format!("{}{}{}", a, s, c));
                 self.block(path, "b", body);
                 let w = self.kw("WEND");
-                self.header(&format!("{}/end", path), w);
+                self.loop_line(&format!("{}/end", path), w);
             }
             Stmt::Do { kind, cond, body } => {
                 let (top, kw) = match kind {
@@ -686,13 +690,13 @@ impl<'a> Pr<'a> {
                 let s2 = self.sp();
                 let c = self.expr(cond);
                 if top {
-                    self.header(path, format!("{}{}{}{}{}", d, s1, k, s2, c));
+                    self.loop_line(path, format!("{}{}{}{}{}", d, s1, k, s2, c));
                     self.block(path, "b", body);
-                    self.header(&format!("{}/end", path), l);
+                    self.loop_line(&format!("{}/end", path), l);
                 } else {
-                    self.header(path, d);
+                    self.loop_line(path, d);
                     self.block(path, "b", body);
-                    self.header(&format!("{}/end", path), format!("{}{}{}{}{}", l, s1, k, s2, c));
+                    self.loop_line(&format!("{}/end", path), format!("{}{}{}{}{}", l, s1, k, s2, c));
                 }
             }
             Stmt::Data(items) => {
